@@ -11,7 +11,7 @@ import xxhash
 from vp_common import Atom, Ctx, line, run_driver
 
 PROP = 'C14'
-RULE = ('insertion sequences (strings, hex digests, small ints) with duplicates before/at/after the warm-up boundary, in random '
+RULE = ('insertion sequences (strings, hex digests, small ints, URL-like strings of 65..300 characters) with duplicates before/at/after the warm-up boundary, in random '
         'orders, on the real class with (p,W) in {(3,4),(4,8),(6,32),(4,3),(5,1)}; plus the real p=19 sketch up to 2^18+3000 distinct '
         '(thorough: 2^21). Non-trivial = sequence that crosses the boundary and contains a duplicate at or after it; distinct = '
         'distinct (p, W, digest sequence).')
@@ -39,13 +39,17 @@ def make_sketch(p, W):
 
 def gen_case(rng, thorough):
     p, W = rng.choice(SMALL)
-    kind = rng.choice(['str', 'hex', 'int'])
+    kind = rng.choice(['str', 'hex', 'int', 'long-str'])
     nd = rng.choice([1, W - 1, W, W, W + 1, W + 1, W + 2, 2 * W, 3 * W + 5, 6 * W])
     nd = max(1, nd)
     if kind == 'str':
         pool = [f'v{rng.randrange(10**6)}' for _ in range(nd)] + ['', 'é', ' x']
     elif kind == 'hex':
         pool = ['%08x' % rng.randrange(2 ** 32) for _ in range(nd)]
+    elif kind == 'long-str':                 # URL-like / free-text values of 65..300 characters
+        pool = ['https://example.org/' + rng.choice(['path/', 'é/', 'q?x=']) * rng.randint(9, 40) + str(rng.randrange(10 ** 9)) +
+                rng.choice(['', '#frag', ' ' * 30]) for _ in range(nd)]
+        pool = [v if len(v) > 64 else v + '/' * 65 for v in pool]
     else:
         pool = list(range(1, nd + 1))
     pool = list(dict.fromkeys(pool))[:nd]
